@@ -424,16 +424,15 @@ Proof.
   - cbn [concat]. eapply J_seq; [exact D1|exact R1|]. apply IH.
 Qed.
 
-Lemma J_stale sc h : forall us t rej, J t (tr_stale sc h us t) (stale_loop sc h us t rej).
+Lemma J_stale sc h : forall us t rej, J t (concat (tr_stale sc h us t)) (stale_loop sc h us t rej).
 Proof.
   induction us as [|uuid us IH]; intros t rej; cbn [stale_loop tr_stale]; [apply J_nil|].
   destruct (find_trk (db_trks t) uuid) as [k|]; [|exact I].
   pose proof (J_send sc t (t_penalty k)) as H1.
   destruct (send_transaction sc t (t_penalty k)) as [s t1] eqn:E1. cbn [fst snd] in *. destruct H1 as [D1 R1].
-  eapply J_seq; [exact D1|exact R1|].
-  destruct s as [hh|hh| |c]; [| | |apply IH];
-    (match goal with |- J ?t0 (?m :: ?l) ?r => change (J t0 ([m] ++ l) r) end;
-     eapply J_seq; [| |apply IH]; reflexivity).
+  destruct s as [hh|hh| |c]; cbn [concat]; rewrite <- ?app_assoc;
+    (eapply J_seq; [exact D1|exact R1|]); [| | |apply IH];
+    (eapply J_seq; [| |apply IH]; reflexivity).
 Qed.
 
 Lemma J_r_block le sc t b h : J t (flat_segs (tr_r_block le sc t b h)) (r_block_connected le sc t b h).
@@ -831,11 +830,12 @@ Proof.
   - constructor; [apply noack_send|apply IH].
 Qed.
 
-Lemma noack_stale sc h : forall us t, noack (tr_stale sc h us t).
+Lemma noack_stale sc h : forall us t, Forall noack (tr_stale sc h us t).
 Proof.
-  induction us as [|uuid us IH]; intros t; cbn [tr_stale]; [apply noack_nil|].
-  destruct (find_trk _ uuid) as [k|]; [|apply noack_nil]. apply noack_app; [apply noack_send|].
-  destruct (fst (send_transaction sc t (t_penalty k))); try (apply noack_cons_stmt); apply IH.
+  induction us as [|uuid us IH]; intros t; cbn [tr_stale]; [constructor|].
+  destruct (find_trk _ uuid) as [k|]; [|constructor].
+  destruct (fst (send_transaction sc t (t_penalty k))); constructor; try apply IH;
+    try apply noack_send; (apply noack_app; [apply noack_send|apply noack_stmt]).
 Qed.
 
 Lemma noack_delete_opt t us r : noack (match us with [] => [] | _ => tr_delete t us r end).
@@ -854,7 +854,7 @@ Proof.
   { cbn [flat_seg]. apply noack_concat. destruct (reorged t3); [constructor|apply noack_reorged]. }
   destruct (match reorged t3 with [] => Ok [] t3 | _ => _ end) as [rej1 t4|]; [|apply noack_nil].
   destruct (u32_sub _ _) as [lim|]; [|apply noack_nil].
-  rewrite flat_segs_cons. apply noack_app; [apply noack_stale|].
+  rewrite flat_segs_cons. apply noack_app; [cbn [flat_seg]; apply noack_concat; apply noack_stale|].
   destruct (stale_loop _ _ _ _ _) as [rej2 t5|]; [|apply noack_nil].
   cbn [flat_segs flat_map flat_seg]. rewrite app_nil_r. apply noack_delete_opt'.
 Qed.
@@ -1191,11 +1191,12 @@ Proof.
       repeat (apply hl_app; try apply hl_send); apply hl_stmt; reflexivity.
   - constructor; [apply hl_send|apply IH].
 Qed.
-Lemma hl_stale sc h : forall us t, hl (tr_stale sc h us t).
+Lemma hl_stale sc h : forall us t, Forall hl (tr_stale sc h us t).
 Proof.
-  induction us as [|uuid us IH]; intros t; cbn [tr_stale]; [apply hl_nil|].
-  destruct (find_trk _ uuid) as [k|]; [|apply hl_nil]. apply hl_app; [apply hl_send|].
-  destruct (fst (send_transaction sc t (t_penalty k))); try (apply hl_cons_stmt; [reflexivity|]); apply IH.
+  induction us as [|uuid us IH]; intros t; cbn [tr_stale]; [constructor|].
+  destruct (find_trk _ uuid) as [k|]; [|constructor].
+  destruct (fst (send_transaction sc t (t_penalty k))); constructor; try apply IH;
+    try apply hl_send; (apply hl_app; [apply hl_send|apply hl_stmt; reflexivity]).
 Qed.
 Lemma hl_gk_block t h : hl (tr_gk_block t h).
 Proof. unfold tr_gk_block. destruct (outdated_users _ _ _) as [[|o os]|]; first [apply hl_stmt; reflexivity|apply hl_nil]. Qed.
@@ -1233,7 +1234,7 @@ Lemma hl_r_tail sc h t3 :
          match u32_sub h (Z.to_N Consts.CONFIRMATIONS_BEFORE_RETRY) with
          | None => []
          | Some lim =>
-             Seq (tr_stale sc h (map trk_uuid (filter (fun k => negb (t_conf k) && N.leb (t_height k) lim) (db_trks t4))) t4) ::
+             Par (tr_stale sc h (map trk_uuid (filter (fun k => negb (t_conf k) && N.leb (t_height k) lim) (db_trks t4))) t4) ::
              match stale_loop sc h (map trk_uuid (filter (fun k => negb (t_conf k) && N.leb (t_height k) lim) (db_trks t4))) t4 [] with
              | Abort _ _ => []
              | Ok rej2 t5 => [Seq (match rej1 ++ rej2 with [] => [] | x :: l => tr_delete t5 (x :: l) false end)]
@@ -1245,7 +1246,7 @@ Proof.
   { cbn [flat_seg]. apply hl_concat. destruct (reorged t3); [constructor|apply hl_reorged]. }
   destruct (match reorged t3 with [] => Ok [] t3 | _ => _ end) as [rej1 t4|]; [|apply hl_nil].
   destruct (u32_sub _ _) as [lim|]; [|apply hl_nil].
-  rewrite flat_segs_cons. apply hl_app; [apply hl_stale|].
+  rewrite flat_segs_cons. apply hl_app; [cbn [flat_seg]; apply hl_concat; apply hl_stale|].
   destruct (stale_loop _ _ _ _ _) as [rej2 t5|]; [|apply hl_nil].
   cbn [flat_segs flat_map flat_seg]. rewrite app_nil_r. destruct (rej1 ++ rej2); [apply hl_nil|apply hl_delete_norefund].
 Qed.
